@@ -11,6 +11,7 @@ package logging
 //@   props C20 C14
 //@   safety
 //@   ensures len(out) == 32 && fresh(out)
+//@   modifies nothing
 
 //@ func (f *LogEntryIntegrityCalculator) calculateHmac(input []byte) (mac []byte)
 //@   props C20
@@ -19,6 +20,7 @@ package logging
 //@   at call hash.Hash.Write#0 : assert recv == ret(hmac.New)[0] && sameslice(arg[0], input)
 //@   at call hash.Hash.Write#1 : assert recv == ret(hmac.New)[0] && sameslice(arg[0], f.previousLogEntryIntegrityCheck)
 //@   at call hash.Hash.Sum : assert recv == ret(hmac.New)[0] && called(hash.Hash.Write#1)
+//@   modifies nothing
 
 //@ func (f *LogEntryIntegrityCalculator) CalculateIntegrityCheck(input []byte) (tag []byte, newChain bool, err error)
 //@   props C20 C17
